@@ -16,7 +16,6 @@ import bisect
 import io
 import logging
 import struct
-import traceback
 import xml.etree.ElementTree as et
 from fractions import Fraction
 
@@ -49,28 +48,43 @@ ID = "C18"
 LEVEL = "fault_enumeration"
 RULE = ("cases are input files: every seed with 0, 1 and (small seeds) 2 deviations from the per-token menu (delete, duplicate, "
         "swap-with-next, truncate here / mid-token, each boundary value of the token's type, junk), addressed by mixed-radix index, "
-        "plus every token string of length <= k over the format's alphabets; every index is executed. A case is non-trivial when "
-        "the reader returned a document; distinct = distinct deep document fingerprints (fp_doc), each of which is sent once per "
-        "worker through the downstream stage (snapshots, LCD filter x2, 14 writer configurations, filter->writer pipeline); "
-        "counters report reader executions, downstream executions and documents skipped as duplicates")
+        "plus every token string of length <= k over the format's alphabets; every index is executed through the reader. A case is "
+        "non-trivial when the reader returned a document; distinct = distinct deep document fingerprints (fp_doc). The downstream "
+        "stage (snapshots at all significant times and midpoints with and without the significant-times cache, LCD filter x2, SRT x2, "
+        "WebVTT x4 (quick) / x8 (thorough), IMSC x4, read->LCD->write x3) runs once per worker for every distinct document SHAPE = "
+        "fp_doc with each text node replaced by its class (empty / white space only / white space at the edges / doubled space or tab / "
+        "line feed / carriage return / control character / mark-up character / non-ASCII / longer than 1000); counters report reader "
+        "executions, downstream executions and documents skipped as duplicates")
 BOUNDS = {
-  "quick": "seeds: 3 SRT, 3 VTT, 4 SCC, 3 STL (x2 reader configurations), 4 TTML grammar seeds + corpus (3 SCC, 52 STL, 4 TTML, 132 VTT): "
-           "0 and 1 deviation of every token of every seed and every corpus file (line, word, field, TF byte, element, attribute tokens); "
-           "2 deviations for line tokenisations of <= 4 lines and the smallest TTML seed (light menu); token strings: length <= 3 over the "
-           "SRT/VTT/SCC line and inline alphabets, TTML element chains <= 3, STL TTI-block strings <= 3, TTML host x attribute x value "
-           "product over a seed-selected third of the attribute names (all hosts, whole value pool)",
-  "thorough": "as quick, plus 2 deviations for every text seed tokenisation of <= 25 tokens, all TTML seeds (light menu) and the smallest "
-              "STL seed (field tokens); token strings of length <= 4; the whole host x attribute x value product",
+  "quick": "grammar seeds 3 SRT, 3 WebVTT, 4 SCC (+ text_align=right on line tokens), 3 EBU STL (reader cfg none: all tokens; cfg TCP+MNR: fields and "
+           "blocks), 5 TTML: 0 and 1 deviation at every token (line and word tokenisations; GSI/TTI fields, TF bytes, blocks, cuts; elements, "
+           "attributes, text positions, lexical tokens); TTML attribute values from the boundary values + the VERIF_SEED-selected quarter of the "
+           "199 typed pool values; 2 deviations: line tokenisations of <= 5 lines and the smallest TTML seed (light menu). Token strings of length "
+           "<= 3: SRT / WebVTT line alphabets (with and without final EOL) and inline alphabets inside a cue, SCC line and CEA-608 word alphabets, "
+           "STL TTI-block alphabet (2 GSI/cfg contexts), TTML element chains in 6 contexts; TTML host x attribute x value product over the "
+           "VERIF_SEED-selected third of the 52 attribute names (12 hosts, all 206 pool values). Corpus (3 SCC, 50 STL, 4 TTML, 132 VTT files), "
+           "0 and 1 deviation, CAPPED as stated in the family notes (evidence.coverage.families[].note): large files get reduced menus, wpt-tests "
+           "VTT files and STL files get full menus on VERIF_SEED-selected slices, every file is read unchanged. WebVTT writer: the 4 configurations "
+           "lp0ta0id1 lp1ta1id1 lp1ta0id0 lp0ta1id0 (every pair of option values)",
+  "thorough": "as quick with: whole TTML value pool; 2 deviations for every text tokenisation of <= 12 tokens, ttml-min and ttml-seq (light menu) and "
+              "the field tokens of the smallest STL seed; reader cfgs on all tokens; token strings of length <= 4; the whole host x attribute x value "
+              "product; corpus: every line token of every file, every word token of SCC files, the 4 ttconv VTT files and the VERIF_SEED-selected "
+              "eighth of the wpt-tests files, every GSI/TTI field and TF byte of every STL file; all 8 WebVTT writer configurations",
 }
 ASSUMPTIONS = [
   "'terminates' is checked as 'finishes within the per-case time limit' (30 s)",
   "a reader outcome is documented iff it is a document, None after a record of level >= ERROR on the ttconv logger, or an exception "
   "whose type is xml.etree.ElementTree.ParseError, ValueError (incl. UnicodeDecodeError) or struct.error; every other exception type "
-  "(including deliberate RuntimeError/Exception raises) is reported under C18.reader.<format>",
-  "the downstream stage runs once per distinct document per worker process (fp_doc de-duplication); the same document reached from "
-  "another input is assumed to behave identically (readers return fresh documents, writers and filters are functions of the document)",
+  "(including deliberate RuntimeError raises) is reported under C18.reader.<format>",
+  "the downstream stage runs once per distinct document shape per worker process; documents that differ only in the characters of their "
+  "text nodes within one text class (see RULE) are assumed to fail or pass the downstream stages alike (writers and filters inspect text "
+  "only for white space, line breaks and emptiness); readers return fresh documents and writers / ISD do not mutate them, the LCD filter "
+  "does and gets a fresh reading of the same input",
   "the read->filter->write pipeline uses the default LCD configuration and the default writer configurations (what tt convert --filter lcd runs)",
-  "text inputs are fed through io.TextIOWrapper(encoding='utf-8') which is what open(path, 'r', encoding='utf-8') gives the readers",
+  "text inputs are fed through io.TextIOWrapper(encoding='utf-8') which is what open(path, 'r', encoding='utf-8') gives the readers; the SCC file is "
+  "read whole with the same decoding (tt.py uses Path.read_text, i.e. the locale's encoding, assumed UTF-8)",
+  "exception discriminators use the qualified name of the innermost ttconv function (kernel.exc_disc uses the bare name, which merges the many "
+  "extract / compute / push_child methods of one file); RecursionError: most frequent frame for readers, one discriminator per clause downstream",
 ]
 
 ALLOWED = (et.ParseError, ValueError, struct.error)      # UnicodeDecodeError is a ValueError
@@ -183,25 +197,43 @@ def _probe_times(sig):
   return out
 
 
+def _ttconv_frames(e):
+  out = []
+  tb = e.__traceback__
+  while tb is not None:
+    code = tb.tb_frame.f_code
+    fn = code.co_filename.replace("\\", "/")
+    if "/ttconv/" in fn and "/verif/" not in fn:
+      out.append(f"{fn.split('/ttconv/', 1)[1]}:{code.co_qualname}")
+    tb = tb.tb_next
+  return out
+
+
 def disc_of(e):
-  """kernel.exc_disc (Type@file:function of the innermost ttconv frame); for RecursionError the innermost frame is wherever the
-  stack happened to run out, so the most frequent ttconv frame (the function that recurses) is used instead"""
+  """Type@file:QualifiedName of the innermost ttconv frame.  This is kernel.exc_disc with the function's qualified name instead of
+  its bare name: the code under test has dozens of methods called extract / compute / push_child / from_model in one file, and the
+  bare name would merge e.g. a ZeroDivisionError in FrameRateAttribute.extract with one in AspectRatioAttribute.extract (a listed
+  finding would then hide a new defect).  For RecursionError the innermost frame is wherever the stack happened to run out, so the
+  most frequent ttconv frame (file:bare function name, i.e. the function that recurses) is used."""
+  frames = _ttconv_frames(e)
+  if not frames:
+    return exc_disc(e)
   if isinstance(e, RecursionError):
-    cnt = {}
-    for fs in traceback.extract_tb(e.__traceback__):
-      fn = fs.filename.replace("\\", "/")
-      if "/ttconv/" in fn and "/verif/" not in fn:
-        k = f"{fn.split('/ttconv/', 1)[1]}:{fs.name}"
-        cnt[k] = cnt.get(k, 0) + 1
-    if cnt:
-      return "RecursionError@" + max(sorted(cnt), key=lambda k: cnt[k])
-  return exc_disc(e)
+    bare = [f.rsplit(".", 1)[-1] if "." in f.split(":", 1)[1] else f.split(":", 1)[1] for f in frames]
+    bare = [f"{f.split(':', 1)[0]}:{b}" for f, b in zip(frames, bare)]
+    return "RecursionError@" + max(sorted(set(bare)), key=bare.count)
+  return f"{type(e).__name__}@{frames[-1]}"
 
 
 def _report(acc, case, clause, e, seen, note=""):
   """one report per distinct failure site per document: a failure already attributed to an earlier stage of the same document
   (the snapshot stage runs first, then the writers, then filter and pipeline) is not reported again under a later clause"""
-  d = disc_of(e)
+  if isinstance(e, RecursionError):
+    # every recursive tree walk of the downstream stages overflows on a deeply nested document; which walk is met first depends on
+    # the depth and the stage, the defect (no depth limit anywhere) is one: one discriminator per clause
+    d = "RecursionError(deeply nested document)"
+  else:
+    d = disc_of(e)
   if d in seen:
     return
   seen.add(d)
@@ -555,7 +587,7 @@ def _pool(tier, seed):
 
 def seed_families(tier, seed):
   thorough = tier == "thorough"
-  pairs_tok = 12 if thorough else 4
+  pairs_tok = 12 if thorough else 5
   fams = []
   for fmt, seeds in (("srt", g.SRT_SEEDS), ("vtt", g.VTT_SEEDS), ("scc", g.SCC_SEEDS)):
     spaces = g.text_spaces(fmt, seeds, pairs_tok)
